@@ -846,6 +846,12 @@ class Interp:
                 if hasattr(cur, "py_havoc"):
                     cur.py_havoc(st)
                 continue
+            if n in mutated and n not in names and isinstance(cur, V.SOpt) and isinstance(cur.val, ModelObj) and hasattr(cur.val, "py_havoc"):
+                # an Optional[dict] parameter whose dict the loop changes IN PLACE (`d[k] = v` under `if d`): the object
+                # stays the one the caller holds, its content becomes arbitrary (rebinding the local to a fresh object would
+                # hide the change from a "not modified" clause about the argument)
+                cur.val.py_havoc(st)
+                continue
             if n in mutated and n not in names and isinstance(cur, LRef):
                 shp = spec.shapes.get(n) or S.shape_of(cur)
                 cur.seq = shp.fresh_seq(st, n) if isinstance(shp, S.ListOf) else shp.fresh(st, n).seq
